@@ -337,17 +337,49 @@ def _is_pair(res):
 def _seqkey(seq): return '+'.join(seq)
 
 
-def task_file(rel, tier, part=0, nparts=1):
-    ld = _load()
-    P = prepare(rel)
-    raw, sets, fullk, tables, oracle = P['raw'], P['sets'], P['fullk'], P['tables'], P['oracle']
-    nsets, nfull = len(sets), len(fullk)
-    name = '%s[%d/%d]' % (rel, part + 1, nparts)
-    failures, samples, distinct, notes = [], [], set(), []
-    counters = dict(calls=0, nonterm=0, items=0, reached=0, unattributed=0)
-    calls = [cl for i, cl in enumerate(calls_for(P, tier)) if i % nparts == part]
+def printed_check(c, P, SF, tn, r, ik, row, distinct=None, counters=None):
+    """Obligation (as C05 obligation 2): every cell of `row` (dict column -> value read by the
+    real code) of chosen row r of table tn at result set ik equals the independent evaluation of
+    the printed cells of that column (blank trailing cells 0.0).  Returns None (holds) or
+    (label, model); model None = the cell is nan."""
+    ti = P['tables'][tn]
+    no = P['oracle'][(tn, r, ik)]
+    s = SF['symlines'][no]
+    cells = s.cells if isinstance(s, SStr) else list(s)
+    toks = SF['toks_of'][no]
+    colof = c6.column_of_tokens(toks, ti['ref_ends'] or [], len(ti['cols']), P['fam'])
+    items, forms = [], {}
+    for ci, col in enumerate(ti['cols']):
+        js = [j for j, cj in enumerate(colof) if cj == ci]
+        a = row[col]
+        if isinstance(a, float) and a != a: return 'nan:%s' % col, None
+        ae = _e(a)
+        if not js:
+            if None in colof:
+                if counters is not None: counters['unattributed'] += 1
+                continue
+            items.append((ae == 0, 'blank:%s' % col)); continue
+        exp, (lo, hi), oparts = c05.expected_term(cells, toks[js[0]])
+        rparts = strs.num_parts(ae)
+        fm = z3.And(*[x == y for x, y in zip(rparts, oparts)]) if rparts is not None else (ae == exp)
+        sf = z3.simplify(fm)
+        if distinct is not None and not z3.is_true(sf): distinct.add(('printed', sf.hash()))
+        forms['col:%s' % col] = (lo, hi, ae, exp, rparts, oparts, fm)
+        items.append((fm, 'col:%s' % col))
+    for lab, res_ in c.prove_all(items):
+        m = None
+        if lab in forms and res_ == 'sat': m = c05._confirm(c, lab, *forms[lab])
+        elif res_ == 'sat': m = ([x for x in c.failures if x['label'] == lab] or [dict(model=None)])[-1]['model']
+        if m is not None: return lab, m
+    return None
 
-    # symbolic lines (terms built once per task; the domain constraints are added on every path)
+
+def symbolic_file(P, headers=True):
+    """The lines of the file with the chosen rows' lines (and, with headers=True, the TOTAL TIME
+    of every TOUGH2-family result-set header) replaced by symbolic strings.  Terms are built
+    once per task; the domain constraints `cons` are to be added on every path.  (Shared with
+    the file-level tier of C07.)"""
+    raw, sets, tables, oracle = P['raw'], P['sets'], P['tables'], P['oracle']
     symlines, cons, toks_of = {}, [], {}
     for (tn, r, ik), no in sorted(oracle.items(), key=lambda kv: (kv[1] is None, kv[1])):
         if no is None or no in symlines: continue
@@ -362,7 +394,7 @@ def task_file(rel, tier, part=0, nparts=1):
     # TOUGH2-family result-set headers: the digits of the printed TOTAL TIME are symbolic too (sign as printed);
     # AUTOUGH2 headers stay as shipped (read_header_AUTOUGH2 searches the line for words)
     time_exp, headlines = {}, []
-    if P['fam'] != 'AUTOUGH2':
+    if headers and P['fam'] != 'AUTOUGH2':
         for ik, st_ in enumerate(sets):
             no = st_['head']
             tk = cc.tokenize_row(raw[no])
@@ -374,7 +406,6 @@ def task_file(rel, tier, part=0, nparts=1):
             time_exp[ik] = c05.expected_term(s_.cells, tk[0])
     lines = list(raw)
     for no, s in symlines.items(): lines[no] = s
-    budget = c6.budget(len(raw), nsets)
 
     def subs_for(m, nos):
         """characters that differ from the shipped file in the given lines, for a model"""
@@ -386,6 +417,23 @@ def task_file(rel, tier, part=0, nparts=1):
             d = {str(p): ch for p, (ch, ch0) in enumerate(zip(txt, raw[no])) if ch != ch0}
             if d: out[str(no)] = d
         return out
+    return dict(symlines=symlines, cons=cons, toks_of=toks_of, time_exp=time_exp, headlines=headlines, lines=lines, subs_for=subs_for)
+
+
+def task_file(rel, tier, part=0, nparts=1):
+    ld = _load()
+    P = prepare(rel)
+    raw, sets, fullk, tables, oracle = P['raw'], P['sets'], P['fullk'], P['tables'], P['oracle']
+    nsets, nfull = len(sets), len(fullk)
+    name = '%s[%d/%d]' % (rel, part + 1, nparts)
+    failures, samples, distinct, notes = [], [], set(), []
+    counters = dict(calls=0, nonterm=0, items=0, reached=0, unattributed=0)
+    calls = [cl for i, cl in enumerate(calls_for(P, tier)) if i % nparts == part]
+
+    SF = symbolic_file(P)
+    symlines, cons, toks_of, time_exp, headlines, lines = SF['symlines'], SF['cons'], SF['toks_of'], SF['time_exp'], SF['headlines'], SF['lines']
+    budget = c6.budget(len(raw), nsets)
+    subs_for = SF['subs_for']
 
     def h(c):
         for con in cons: c.add(con)
@@ -451,37 +499,16 @@ def task_file(rel, tier, part=0, nparts=1):
         for (tn, r, ik), row in sorted(ref.items()):
             no = oracle[(tn, r, ik)]
             ti = tables[tn]
-            s = symlines[no]
-            cells = s.cells if isinstance(s, SStr) else list(s)
-            toks = toks_of[no]
-            colof = c6.column_of_tokens(toks, ti['ref_ends'] or [], len(ti['cols']), P['fam'])
-            items, forms = [], {}
-            for ci, col in enumerate(ti['cols']):
-                js = [j for j, cj in enumerate(colof) if cj == ci]
-                a = row[col]
-                if isinstance(a, float) and a != a:
-                    fail('%s/%s/printed-value' % (rel, tn), 'row %d column %s at result set %d read as nan' % (r, col, ik), False, nos=[no]); continue
-                ae = _e(a)
-                if not js:
-                    if None in colof: counters['unattributed'] += 1; continue
-                    items.append((ae == 0, 'blank:%s' % col)); continue
-                exp, (lo, hi), oparts = c05.expected_term(cells, toks[js[0]])
-                rparts = strs.num_parts(ae)
-                fm = z3.And(*[x == y for x, y in zip(rparts, oparts)]) if rparts is not None else (ae == exp)
-                sf = z3.simplify(fm)
-                if not z3.is_true(sf): distinct.add(('printed', sf.hash()))
-                forms['col:%s' % col] = (lo, hi, ae, exp, rparts, oparts, fm)
-                items.append((fm, 'col:%s' % col))
-            for lab, res_ in c.prove_all(items):
-                m = None
-                if lab in forms and res_ == 'sat': m = c05._confirm(c, lab, *forms[lab])
-                elif res_ == 'sat': m = ([x for x in c.failures if x['label'] == lab] or [dict(model=None)])[-1]['model']
-                if m is not None:
+            hit = printed_check(c, P, SF, tn, r, ik, row, distinct, counters)
+            if hit is not None:
+                lab, m = hit
+                if m is None:
+                    fail('%s/%s/printed-value' % (rel, tn), 'row %d column %s at result set %d read as nan' % (r, lab.split(':', 1)[1], ik), False, nos=[no])
+                else:
                     fail('%s/%s/printed-value' % (rel, tn), 'row %d %s at result set %d: value in the table differs from the printed number' % (r, lab, ik),
                          None, nos=[no], model=m,
                          call=dict(items=[_item(P, tn, r, 'int', ti['cols'].index(lab.split(':', 1)[1]))], form='list', short=True,
                                    start=0, seq=(tn,), variant='printed-value'))
-                    break
 
         if first:
             samples.append(dict(file=rel, simulator=P['simulator'], result_sets=nsets, full=nfull, tables=P['tablenames'],
